@@ -209,3 +209,62 @@ def derived_programs(seed, n, syms=gen.SYMS, tids=None):
         pp = gen.rand_array(rng, sym, 2, kind, ixs=pix, sparse=0.0, oddpos=9, start=31, cls=x["cls"])
         progs.append({"tid": tids(), "inputs": {"x": x, "xs0": xs0, "p": pp}, "steps": steps})
     return progs
+
+
+def fresh_programs(seed, n, syms=gen.SYMS, tids=None):
+    """A call made after a random warm-up of OTHER calls (other arrays, other options) must return bit for bit what
+    the same call returns in a brand-new interpreter: whatever the process remembers - plan caches, memoised kernels,
+    module defaults - must not show.  (op "fresh" runs the call in a subprocess and returns the projected result.)"""
+    from .linalg_drv import matrix
+
+    tids = tids or gen.Tids()
+    progs = []
+    for i in range(n):
+        rng = gen.rng_for(seed, "fresh", i)
+        sym = syms[i % len(syms)]
+        kind = rng.choice(["abelian", "fermionic"])
+        x = matrix(rng, sym, kind, pattern="monomial", dtype="float64", sparse=0.2)
+        y = matrix(rng, sym, kind, pattern="monomial", dtype="float64", sparse=0.2, start=7)
+        h = matrix(rng, sym, kind, hermitian=True, dtype="float64", start=2)
+        z = gen.rand_array(rng, sym, 3, kind, sparse=0.3, maxc=2, phases=0.3 if kind == "fermionic" else 0.0, oddpos=4)
+        inputs = {"x": x, "y": y, "h": h, "z": z}
+
+        def calls(m, t):
+            """the menu of calls on matrix register m (t: the rank-3 register)"""
+            return [("qr", [m], {"stabilized": False}, 2), ("qr", [m], {"stabilized": True}, 2), ("svd", [m], {}, 3),
+                    ("svd_truncated", [m], {"max_bond": 2, "absorb": "none"}, 3),
+                    ("svd_truncated", [m], {"cutoff": [1, 2], "cutoff_mode": 1, "absorb": 0}, 3),
+                    ("fuse", [t], {"groups": [[0, 1]]}, 1), ("fuse", [t], {"groups": [[2, 0]], "mode": "concat"}, 1),
+                    ("reshape", [t], {"newshape": None}, 1), ("transpose", [t], {"axes": [2, 0, 1]}, 1),
+                    ("conj", [m], {}, 1), ("dagger", [m], {}, 1), ("norm", [m], {}, 1), ("to_dense", [m], {}, 1)]
+
+        def fix(op, ins, a):
+            a = dict(a)
+            if op == "reshape":
+                from .fuse import total_shape
+                sh = total_shape(inputs[ins[0]])
+                a = {"newshape": [sh[0] * sh[1], sh[2]], "back": True}
+            return a
+
+        steps = []
+        k = 0
+        warm = calls("y", "z") + [("eigh", ["h"], {}, 2)]
+        rng.shuffle(warm)
+        for op, ins, a, nout in warm[: rng.randint(2, 6)]:
+            k += 1
+            steps.append({"op": op, "in": ins, "out": [f"w{k}_{j}" for j in range(nout)], "args": fix(op, ins, a),
+                          "entry": rng.choice(["symmray", "autoray"]) if op in ("qr", "svd", "eigh") else "method"})
+        targets = calls("x", "z")
+        rng.shuffle(targets)
+        for op, ins, a, nout in targets[:4]:
+            k += 1
+            a = fix(op, ins, a)
+            entry = "symmray" if op in ("qr", "svd", "eigh") else "method"
+            hot = [f"hot{k}_{j}" for j in range(nout)]
+            cold = [f"cold{k}_{j}" for j in range(nout)]
+            steps.append({"op": op, "in": ins, "out": hot, "args": a, "entry": entry})
+            steps.append({"op": "fresh", "in": ins, "out": cold, "args": {"call": {"op": op, "args": a, "entry": entry}}})
+            for u, v in zip(hot, cold):
+                steps.append(rel("obs", f"C15.same_as_fresh_interpreter.{op}", u, v))
+        progs.append({"tid": tids(), "inputs": inputs, "steps": steps})
+    return progs
